@@ -40,7 +40,14 @@ def replay_toy(ctx, binp, vec, d, name="g"):
     for p in sorted({v["in"].get("p", 0) for v in vec}):
         part = [v for v in vec if v["in"].get("p", 0) == p]
         vlib.write_ndjson("%s/in_%s_p%s.ndjson" % (d, name, p), part)
-        vlib.run_driver(ctx, binp, "replay", "%s/%s_p%s.ndjson" % (d, name, p), infile="%s/in_%s_p%s.ndjson" % (d, name, p))
+        try:
+            vlib.run_driver(ctx, binp, "replay", "%s/%s_p%s.ndjson" % (d, name, p), infile="%s/in_%s_p%s.ndjson" % (d, name, p), timeout=75)
+        except vlib.Infra as e:
+            # the toy instantiation is not decisive (the code may be specialised to the production curve: it may even loop
+            # on other parameters); the real-size legs decide
+            ctx.skipped.append("toy-curve replay (p=%s) did not complete: leg skipped, the real-size legs decide (%s)" % (p, str(e).splitlines()[0][:160]))
+            ctx.log("toy replay p=%s skipped (and the remaining toy primes with it)" % p)
+            break
         out += vlib.read_ndjson("%s/%s_p%s.ndjson" % (d, name, p))
     return out
 
